@@ -150,6 +150,13 @@ class DefUse:
             ds = self.whole_defs(local)
             if len(ds) > 1 and all(d[0] == "stmt" and d[3].get("inline_ret") for d in ds):
                 ds = ds[:1]  # the copies `dest = move ret` of one inlined callee (one per split return block)
+            if len(ds) > 1 and self.body.locals[local].get("inlined_ret"):
+                # constant returns of an inlined helper are threaded straight to the caller's branch arm (sq/inline.py): only
+                # the computed returns are ever observed through the call's destination
+                keep = [d for d in ds if not (d[0] == "stmt" and d[3]["rv"]["k"] == "use" and "const" in d[3]["rv"]["x"]
+                                              and self.body.blocks[d[1]].get("ret_variant") in (0, 1))]
+                if len(keep) == 1:
+                    ds = keep
             if len(ds) > 1 and proj and proj[0]["k"] == "downcast":
                 # `(x as Some).0` : only the definitions that build that variant matter
                 want = proj[0].get("idx")
